@@ -168,6 +168,66 @@ func c07Block(c *Ctx, r *Rng, cols []blockCol, rows, rev int) {
 			}
 		}
 	}
+	// the same block carried by SEVERAL frames (a server cuts large blocks into frames): cuts inside the later frames
+	if len(enc) >= 4 && (c.Thorough || r.Intn(3) == 0) {
+		for _, m := range []compress.Method{compress.LZ4, compress.None, compress.ZSTD} {
+			if !c.Thorough && m == compress.ZSTD {
+				continue
+			}
+			nf := 2 + r.Intn(2)
+			var stream []byte
+			firstLen := 0
+			ok := true
+			for i := 0; i < nf; i++ {
+				part := enc[i*len(enc)/nf : (i+1)*len(enc)/nf]
+				w := compress.NewWriter(compress.LevelZero, m)
+				if err := w.Compress(part); err != nil {
+					ok = false
+					break
+				}
+				stream = append(stream, w.Data...)
+				if i == 0 {
+					firstLen = len(stream)
+				}
+			}
+			if !ok {
+				continue
+			}
+			// the whole multi-frame stream must decode (otherwise the cuts prove nothing)
+			{
+				rd := proto.NewReader(bytes.NewReader(stream))
+				rd.EnableCompression()
+				var whole proto.Block
+				if whole.DecodeBlock(rd, rev, res) != nil {
+					continue
+				}
+			}
+			var fcuts []int
+			for _, k := range cutPositions(r, len(stream)-firstLen, budget/6) {
+				fcuts = append(fcuts, firstLen+k)
+			}
+			R.CountN("prefixes:compressed-multi-frame", len(fcuts))
+			for _, k := range fcuts {
+				if k >= len(stream) {
+					continue
+				}
+				rd := proto.NewReader(bytes.NewReader(stream[:k]))
+				rd.EnableCompression()
+				var got proto.Block
+				var derr error
+				if pn, msg := safely(func() { derr = got.DecodeBlock(rd, rev, res) }); pn {
+					cs["cut"] = k
+					R.Violate(Violation{Kind: "oracle", Key: "prefix-panic", What: "compressed multi-frame prefix decode panicked: " + msg, Case: cs})
+					return
+				}
+				if derr == nil {
+					cs["cut"], cs["method"], cs["frames"], cs["first_frame_len"] = k, m.String(), nf, firstLen
+					R.Violate(Violation{Kind: "oracle", Key: "prefix-accepted-compressed", What: fmt.Sprintf("a block carried by %d %s frames and cut after %d of %d bytes (inside a later frame) decoded without error", nf, m, k, len(stream)), Case: cs})
+					return
+				}
+			}
+		}
+	}
 }
 
 func c07Message(c *Ctx, r *Rng, m c17Msg, v int) {
